@@ -88,8 +88,13 @@ def render_reads(state, names):
     """the argument list of a print: the names read left to right, sometimes inside a comparison"""
     rnd = state.get('rnd')
     if rnd is not None and len(names) == 2 and rnd.random() < 0.5:
+        if rnd.random() < 0.35:
+            # and / or / not whose operands are ALL evaluated at run time (a non-empty list is true, an empty one false)
+            return rnd.choice(['[%s] and [%s]', '[] or [%s, %s]', 'not [%s] or [%s]', '[%s] and not [%s]']) % (names[0], names[1])
         return '%s %s %s' % (names[0], rnd.choice(['==', '!=', 'is', 'is not']), names[1])
     if rnd is not None and len(names) == 1 and rnd.random() < 0.3:
+        if rnd.random() < 0.4:
+            return rnd.choice(['[] or %s', '[0] and %s', 'not %s', '"" or [%s]']) % names[0]
         return '%s %s %s' % (rnd.choice(['0', '"n"']), rnd.choice(['==', '!=']), names[0])
     return ', '.join(names)
 
